@@ -41,7 +41,7 @@ def circuit(rng, n_in=(1, 5), n_gates=(1, 10), types=GATES, max_arity=4, consts=
     for n in ins:
         c.add(n, "input")
     pool = list(ins)
-    if rng.random() < consts:
+    if rng.random() < consts or not pool:
         k = rng.choice(["0", "1"] + (["x"] if allow_x else []))
         nm = [x for x in names(rng, 1, "k", adversarial, taken=c.nodes())][0]
         c.add(nm, k)
